@@ -9,6 +9,7 @@ import RSSched.Spec.Output
 import RSSched.Model.Swaps
 import RSSched.Model.Output
 import RSSched.Model.TransitionSearch
+import RSSched.Model.Solve
 namespace RSSched.Driver
 open RSSched Spec
 
@@ -139,10 +140,8 @@ def checkPipe (c : Case) : VM Unit := do
       return res
     let firstId (vt : Nat) : Nat := ((fl.s.vehiclesOfType vt).map (·.idx)).foldl Nat.min 1000000
     let order := (hooked.map (·.1)).mergeSort (fun a b => firstId a ≤ firstId b)
-    let built : R Schedule := order.foldlM (fun (sch : Schedule) vt =>
-        ((assocGet? hooked vt).getD []).foldlM (fun (sc : Schedule) tour => do
-          let (s', _) ← Schedule.spawnVehicleForPath nw sc vt tour
-          pure s') sch) (Schedule.empty nw)
+    let byType := order.map (fun vt => (vt, (assocGet? hooked vt).getD []))
+    let built : R Schedule := Solve.fromTours nw byType
     match built with
     | .ok m =>
       let fs := sameState m fl.s
@@ -155,6 +154,29 @@ def checkPipe (c : Case) : VM Unit := do
         let fs := sameState m st.s
         if !fs.isEmpty then vdiff "C16" "model-improve-depots" s!"fields={fs}"
       | .error e => vdiff "C16" "model-improve-depots-faults" s!"{repr e}"
+    -- (b') the whole modelled pipeline `Solve.solve` (the function the pipeline theorems of
+    --      Props/C16Pipeline are about) on the oracle values of this run: decoded tours, number of
+    --      accepted steps, the optimiser's transitions. Without accepted steps nothing depends on
+    --      rayon's choice among equal minima, so the returned schedule must be the model's.
+    if steps.length ≤ 2 then
+      match snap "transitions", snap "final" with
+      | some trs, some fin =>
+        let oracle : Solve.Oracle := { tours := byType, fuel := steps.length, optimise := fun _ => trs.s.transitions }
+        match Solve.solve nw oracle with
+        | .ok mt =>
+          let fs := sameState mt.final fin.s
+          if steps.isEmpty then
+            if !fs.isEmpty then vdiff "C16" "model-solve-differs" s!"fields={fs}"
+            vstat "pipe.solve-model-equal" (if fs.isEmpty then 1 else 0)
+          else
+            vstat "pipe.solve-model-equal-after-steps" (if fs.isEmpty then 1 else 0)
+            vstat "pipe.solve-model-other-minimum" (if fs.isEmpty then 0 else 1)
+        | .error e =>
+          -- after accepted steps the model may sit in another minimum (other vehicle ids), where the
+          -- observed transitions need not fit; without steps a fault is a divergence
+          if steps.isEmpty then vdiff "C16" "model-solve-faults" s!"{repr e}"
+          else vstat "pipe.solve-model-other-minimum" 1
+      | _, _ => pure ()
   -- (c) local search trajectory: every accepted schedule is a candidate of its predecessor, no
   --     candidate is strictly better than it, and the result has no strictly better candidate
   if let some st := snap "start" then
